@@ -560,3 +560,21 @@ def diff_streams(ops, impl, model, ignore_prefixes=("conf ",)):
         if a != b:
             diffs.append((i, op, a, b))
     return diffs
+
+
+def build_preload(name):
+    """Compile /verif/harness/preload/<name>.c into a shared object under the scratch dir."""
+    src = VERIF / "harness" / "preload" / (name + ".c")
+    outdir = SCRATCH / "harness-std"
+    outdir.mkdir(parents=True, exist_ok=True)
+    so = outdir / (name + ".so")
+    stamp = outdir / (name + ".so.stamp")
+    key = hashlib.sha256(src.read_bytes()).hexdigest()
+    with Lock("preload-" + name):
+        if so.exists() and stamp.exists() and stamp.read_text() == key:
+            return so
+        rc, out, err = sh(["gcc", "-shared", "-fPIC", "-O1", "-o", str(so), str(src), "-ldl"])
+        if rc != 0:
+            raise RuntimeError("preload %s failed to compile: %s" % (name, err[-2000:]))
+        stamp.write_text(key)
+    return so
